@@ -1,5 +1,6 @@
 CFG = {
     "lean_targets": ["Norad.Props.C01", "Norad.Props.C01Bridge"],
+    "extract": "roundtrip",
     "audit": "Norad/Audit/C01.lean",
     "rule": ("fonts built through the public API (every int-or-float font-info field and list, unitsPerEm, ~100 other font-info fields from a seed, guidelines with "
              "identifiers and libs, lib with every plist type incl. empty arrays/dicts, blank strings, keys with line breaks, groups, kerning, feature text with CR/LF/CRLF "
@@ -14,6 +15,7 @@ CFG = {
     "timeout": {"quick": 600, "thorough": 7200},
     "search_timeout": 90,
     "trusted_base": COMMON_TRUST + [
+        "source-level tie (DESIGN 11.8): tools/extract_roundtrip.py reads the glif writer's per-attribute gates and formatting (serialize.rs), the glif parser's defaults (parse.rs, mod.rs), the optional-file gates of save_impl / layerinfo and what load gives for absent files (font.rs, layer.rs, fontinfo.rs) and the tests, constants and casts of the three number writers (kerning.rs, fontinfo.rs) on every run; the regex translator is trusted in one direction only (a wrong extraction can fail a source_* theorem or fall back to the pinned section, it cannot make a false theorem check); control flow outside these shapes is tied by behaviour only",
         "the plist crate: XML plist writer/reader round trip of values (strings incl. blanks and line breaks, integers, reals, data, dates, nested containers); "
         "Rust's shortest round-trip f64 formatting/parsing (a value written as <real> reads back bit-identically) - both are parameters of the model, exercised on every case by the oracle",
         "the model is generic over the un-modelled parts (Parts/PartLaws, one named law per hypothesis); Props/C01Bridge.lean discharges the glyph-file law by C02 glif_roundtrip_partial_no_object_libs, "
@@ -34,7 +36,7 @@ MANIFEST = {
              "saturating i32 cast, reads back within 1e-9 relative for every value that is 0 or of magnitude > 2^-52; counterexample at 1e-17 recorded), the pinned tree's "
              "truncation (1-2^-53 -> 0) and saturation (3e9 -> 2147483647) as counterexample theorems next to the repaired writers (fix: commits), num_roundtrip at the level of "
              "in-memory numbers, lib_roundtrip (recursive key sorting shows the same node at every path), features_roundtrip (CRLF->LF keeps the line-ending normal form; "
-             "non-idempotence counterexample), layers_roundtrip_order / layers_default_moved_to_front, metainfo_roundtrip. Correspondence: generated fonts x WriteOptions through "
+             "non-idempotence counterexample), layers_roundtrip_order / layers_default_moved_to_front, metainfo_roundtrip. Source-level tie (regenerated from the Rust on every run): source_gates_match_defaults (every attribute the glif writer omits under a gate is omitted exactly at the value the parser assumes when it is absent), source_element_gates_match_defaults, source_absent_files_read_as_empty (every file written only when non-empty reads back as the empty value), source_file_gates_match_model, source_glif_gates_match_model_encoder (the extracted gate table confirmed row by row on the C02 model encoder), source_number_writers_match_model (tests, EPSILON, i32 bounds, casts, colour decimals). Correspondence: generated fonts x WriteOptions through "
              "Font::save_with_options / Font::load, written files and loaded font compared with the model, specification oracle on the loaded font."),
     "design_ref": "5 / C01, Appendix E, sections 6 and 8",
     "note": "trusted: Lean kernel + 3 standard axioms; harness/driver glue; plist crate and f64 formatting as parameters; glyphs, other font-info fields and stores as opaque tokens (their own properties)",
